@@ -1169,7 +1169,13 @@ func main() {
 				"replay_divergences": jr.Diverged, "first_divergence": jr.DivergedAt})
 			for _, v := range jr.Violations {
 				if !v.Stable {
-					r.HarnessError("unstable violation (same schedule did not fail again): %s %s: %s", jr.Scenario, v.Class, v.Detail)
+					// A violation whose recorded schedule does not fail again is not believed (some nondeterminism the
+					// scheduler does not own was involved): it is counted and printed, the run is marked non-exhaustive,
+					// and it is never reported as a VIOLATION.
+					r.Outcome("unstable-observation-not-believed:" + jr.Scenario + ":" + v.Class)
+					r.MarkCapped()
+					fmt.Printf("UNSTABLE (same schedule did not fail again; not reported): %s %s: %.300s\n", jr.Scenario, v.Class, v.Detail)
+					continue
 				}
 				// query-answer classes are keyed by class:query only (the same defect shows up in several scenarios)
 				key := v.Class
